@@ -1312,12 +1312,12 @@ def run(ck: Check) -> None:
     run_batch(ck, camps, c05_refs.core_block() + (c05_refs.stratified(ck, 150) if quick else c05_refs.block(ck)))
     # inherited members re-listed as required by a subclass schema
     icamps = c05_inherit.make_campaigns(ck, camps)
-    c05_inherit.run_batch(ck, icamps, c05_inherit.core_block(quick=quick) + c05_inherit.random_groups(ck, 150 if quick else 4000))
+    c05_inherit.run_batch(ck, icamps, c05_inherit.core_block(quick=quick) + c05_inherit.random_groups(ck, 150 if quick else 2500))
     ck.notes["space"] = {
         "base_block": "kind x dialect/null-source x required x default class x type x constraint x 7 options (own required list, plain name): 105600 valid vectors",
         "renaming_block": f"listed members x where listed (3) x name kind (4) x snake-case-field x {{strict-nullable, use-default, force-optional}}: {len(renaming_vectors()) if not quick else 124800} vectors",
         "union_block": "union-typed members: core (all lists of <= 2 alternatives over {T, [T,null], null} x kind x spelling x required) always; thorough adds kind x lists of alternatives (<= 2 over two types and null, 3 over {T,[T,null],null,U}, OpenAPI lists with a nullable:true alternative) x spelling x required x {no default, null default} x strict-nullable with the other dimensions drawn",
-        "ref_block": "$ref-typed members: kind x dialect x definition (plain / type list with null / OpenAPI nullable keyword) x where the definition stands (root-referrer, before, after, file loaded earlier / later, external file; OpenAPI: before / after) x required; always complete with options off (+ strict-nullable for OpenAPI); quick +300 stratified over all other dimensions; thorough: x default (none / null) x {strict-nullable, use-default, force-optional, strip-default-none} x where `required` is written, rest drawn",
+        "ref_block": "$ref-typed members: kind x dialect x definition (plain / type list with null / OpenAPI nullable keyword) x where the definition stands (root-referrer, before, after, file loaded earlier / later, external file; OpenAPI: before / after) x required; always complete with options off (+ strict-nullable for OpenAPI); quick +300 stratified over all other dimensions; thorough: x default (none / null) x {strict-nullable, use-default, force-optional} x where `required` is written, rest drawn",
         "inherit_block": "inherited members: kind x where the subclass lists the inherited member (allOf owner / sibling item / item with properties) x second inherited member (plain / non-identifier key, re-listed or not) x own member (none / plain / non-identifier key) x chain (depth 1 both definition orders, depth 2) always complete with options off; plus random chains (1-3 base members of any archetype, 0-2 own members, any subset re-listed, all options)",
         "sibling_block": "every ordered pair of scalar member archetypes (null source x required/optional/default/null default) of one primitive type x dialect x strict-nullable x kind x layout (same class / one per schema); quick: a quarter of it, string only; plus random groups of 2-3 members (scalar, array, dict, union-typed) in all orders",
         "tier_covers": "all blocks exhaustively (spelling options, realisations and the non-enumerated dimensions of the union block drawn per vector)" if not quick else "stratified sample over the product of all dimensions + corpus + union core block + a quarter of the sibling block",
@@ -1372,6 +1372,11 @@ def replay(ck: Check, path: str) -> int:
     r = run_vector(v)
     rep = ck.driver.run([driver_request(v)])[0]
     print("vector:", vec_key(v), "member schema:", json.dumps(r.get("member")))
+    if is_ref(v) and isinstance(r.get("document"), dict):
+        for name, doc in r["document"]["files"].items():
+            print(f"input file {name}" + (" (the input)" if r["document"]["entry"] == name else ""), json.dumps(doc))
+        if r["document"]["entry"] is None:
+            print("(the directory of these files is the input)")
     print("emitted:", r.get("line"), "| semantics:", r.get("sem"))
     evaluate(ck, camps, v, r, parse_reply(rep))
     for f in ck.failures:
